@@ -642,7 +642,7 @@ def guards(acc, ctx):
             g.append("outcome %s never observed" % k)
     if o.get("B:accept", 0) < 5000 or o.get("B:reject", 0) < 5000:
         g.append("operation-string grammar: fewer than 5000 accepted or rejected strings (%r / %r)" % (o.get("B:accept"), o.get("B:reject")))
-    if acc.counters.get("client_operations", 0) < (25000 if ctx.quick else 1000000):
+    if acc.counters.get("client_operations", 0) < (25000 if ctx.quick else 800000):
         g.append("fewer client operations executed than the tier's bound implies: %r" % acc.counters.get("client_operations"))
     return g
 
